@@ -1650,7 +1650,9 @@ impl Harness {
             }
         }
         if self.connect_client(0, true).await.is_err() {
-            self.violate("C10", "root_login_after_restart", "login_failed", "root cannot log in after restart");
+            // (under the run's own property where C10 is not being checked: nothing can be observed any more)
+            let login_owner = if self.on("C10") { "C10" } else { owner };
+            self.violate(login_owner, "root_login_after_restart", "login_failed", "root cannot log in after restart");
             self.fatal = true;
             return;
         }
